@@ -22,7 +22,7 @@ RULE = (
     "keys; non-trivial = the router raised a redirect; distinct = distinct (map, settings, path, query kind) hashes"
 )
 REQUIRED_OBS = ["redirects_seen", "redirect_kind:slash", "redirect_kind:merge", "redirect_kind:defaults", "redirect_kind:alias", "followed_to_match",
-                "hostlike_paths", "reach:MapAdapter.make_redirect_url", "reach:MapAdapter.get_default_redirect", "reach:MapAdapter.make_alias_redirect_url"]
+                "hostlike_paths", "redirects_to_targets_that_need_quoting", "redirects_for_floats_written_with_an_exponent", "reach:MapAdapter.make_redirect_url", "reach:MapAdapter.get_default_redirect", "reach:MapAdapter.make_alias_redirect_url"]
 ASSUMPTIONS = [
     "redirect_to targets supplied by the application are outside the claim and never generated",
     "the denotation of a path is the set of (endpoint, arguments) of rules admitting it exactly, with a trailing slash added/removed, or with slashes merged (rule defaults applied)",
